@@ -7,7 +7,7 @@ func vpMetrics() *Metrics {
 		FontName: "Test-Regular", FullName: "Test Regular Bold", Ascent: 700, Descent: -200, CapHeight: 650, XHeight: 450,
 		Glyphs: map[string]*GlyphInfo{
 			".notdef": {WidthX: 500},
-			"f":       {WidthX: 300, BBox: rect.Rect{LLx: 10, LLy: 0, URx: 290, URy: 700}, Ligatures: map[string]string{"i": "fi", "l": "fl"}},
+			"f":       {WidthX: 300, BBox: rect.Rect{LLx: 10, LLy: 0, URx: 290, URy: 700}, Ligatures: map[string]string{"i": "fi", "dotlessi": "fi", "l": "fl"}},
 			"i":       {WidthX: 250, BBox: rect.Rect{LLx: 20, LLy: 0, URx: 200, URy: 650}},
 		},
 		Encoding: func() []string {
